@@ -1,4 +1,5 @@
 import JoblibProofs.Lemmas.FuncCode
+import JoblibProofs.Lemmas.FuncCodeText
 /-!
 # C12 — a cached function never returns a value computed by different source code
 
@@ -431,5 +432,236 @@ theorem fixed_on_the_witnesses :
         [.define 1 1 true 0, .define 2 2 true 0, .call 1 1, .check 2 1, .call 1 1, .call 2 1] =
       [.done, .done, .value (1, 1) true, .flag false, .value (1, 1) true, .value (2, 1) true] := by
   decide
+
+/-! ## The TEXT layer of `func_code.py` (`JoblibModel.FuncCodeText`)
+
+The theorems above treat the stored source as a token and a damaged file as a class. This section is about the
+characters: `_write_func_code`'s format string, `extract_first_line`'s parse (`startswith`, `split("\n")`, `int`,
+`"\n".join`), and the comparison `old_func_code == func_code`, for every source text and every line number; a torn
+file is any strict prefix. (UTF-8 is a parameter: a byte prefix decodes to a code-point prefix or raises
+`UnicodeDecodeError`, which is a `ValueError` — case 2 of `torn_reads`.) Tied to `/repo` by the `text` stream of the
+check: the real `_write_func_code` / `extract_first_line` on generated texts, intact and cut at every length. -/
+section Text
+open JoblibModel.FuncCodeText
+theorem firstLine_no_nl : NL ∉ firstLineText := by decide
+
+private theorem head_no_nl (n : Int) : NL ∉ firstLineText ++ SP :: showInt n := by
+  intro h
+  rcases List.mem_append.1 h with h | h
+  · exact firstLine_no_nl h
+  · rcases List.mem_cons.1 h with h | h
+    · exact absurd h (by decide)
+    · exact (char_props (showInt_chars n _ h)).2.2 rfl
+
+private theorem isPrefixOf_append (a b : Text) : a.isPrefixOf (a ++ b) = true := by
+  induction a with
+  | nil => simp
+  | cons c cs ih => simp [ih]
+
+/-- ROUND TRIP of the text layer: what `_write_func_code` writes for (`first_line`, `func_code`) is read back by
+`extract_first_line` as exactly (`func_code`, `first_line`) — for EVERY source text (any characters, including
+lines that themselves start with `# first line:`, `\r`, empty source) and every line number (negative ones
+included: `-1` is what joblib stores when the line is unknown). -/
+theorem extract_write_roundtrip (first_line : Int) (func_code : Text) (hl : (showInt first_line).length < 4000) :
+    extractFirstLine (writeText first_line func_code) = .ok (func_code, first_line) := by
+  have hw : writeText first_line func_code = (firstLineText ++ SP :: showInt first_line) ++ NL :: func_code := by
+    simp [writeText]
+  unfold extractFirstLine
+  have hp : firstLineText.isPrefixOf (writeText first_line func_code) = true := by
+    unfold writeText; exact isPrefixOf_append _ _
+  simp only [hp, if_true]
+  rw [hw, splitNL, splitNLAux_append _ _ _ (head_no_nl first_line)]
+  simp only [List.reverse_nil, List.nil_append, List.headD_cons, List.tail_cons, List.drop_left']
+  rw [(pyInt_showInt first_line hl).1]
+  simp only []
+  rw [← splitNL, joinNL_splitNL]
+
+private theorem isPrefixOf_short (a p : Text) (h : p.length < a.length) : a.isPrefixOf p = false := by
+  induction a generalizing p with
+  | nil => simp at h
+  | cons c cs ih =>
+    cases p with
+    | nil => rfl
+    | cons d ds =>
+      simp only [List.isPrefixOf, Bool.and_eq_false_imp]
+      intro _
+      exact ih ds (by simpa using h)
+
+private theorem any_take (t : Text) (k : Nat) (f : Nat → Bool) (h : t.any f = false) : (t.take k).any f = false := by
+  rw [List.any_eq_false] at *
+  intro c hc
+  exact h c (List.mem_of_mem_take hc)
+
+/-- WHAT A TORN `func_code.py` READS AS.  The writer is killed inside its single `write`: the file holds the first
+`k` characters of what `_write_func_code` meant to write (`k` smaller than the full length).  Then
+`extract_first_line` does exactly one of four things, whatever the source and the line number:
+(1) `k` is inside the marker `# first line:` — the text is returned whole with line `-1`;
+(2) `ValueError` (the number is missing: `int('')`, `int(' ')`, `int(' -')`) — caught by
+    `_check_previous_func_code`, which clears the function's directory (repair e0efebd);
+(3) the text ends inside the first line after at least one digit — EMPTY source, a truncated line number;
+(4) the text ends inside the source — a STRICT prefix of the source, the right line number.
+The model never abstains here. -/
+theorem torn_reads (first_line : Int) (func_code : Text) (hl : (showInt first_line).length < 3999) (k : Nat)
+    (hk : k < (writeText first_line func_code).length) :
+    let p := (writeText first_line func_code).take k
+    (p.length < firstLineText.length ∧ p = firstLineText.take k ∧ extractFirstLine p = .ok (p, -1))
+    ∨ extractFirstLine p = .valueError
+    ∨ (∃ m, extractFirstLine p = .ok ([], m))
+    ∨ (∃ j, j < func_code.length ∧ extractFirstLine p = .ok (func_code.take j, first_line)) := by
+  intro p
+  have hW : writeText first_line func_code = firstLineText ++ ((SP :: showInt first_line) ++ NL :: func_code) := by
+    simp [writeText]
+  by_cases h1 : k < firstLineText.length
+  · -- inside the marker
+    left
+    have hp : p = firstLineText.take k := by
+      show (writeText first_line func_code).take k = _
+      rw [hW, List.take_append_of_le_length (by omega)]
+    have hlen : p.length < firstLineText.length := by rw [hp, List.length_take]; omega
+    refine ⟨hlen, hp, ?_⟩
+    unfold extractFirstLine
+    rw [isPrefixOf_short _ _ hlen]; rfl
+  · right
+    have h1' : firstLineText.length ≤ k := by omega
+    by_cases h2 : k ≤ firstLineText.length + (SP :: showInt first_line).length
+    · -- inside the first line: p = marker ++ q, q a prefix of " <number>"
+      obtain ⟨q, hq, hp⟩ : ∃ q, q = (SP :: showInt first_line).take (k - firstLineText.length) ∧ p = firstLineText ++ q := by
+        refine ⟨_, rfl, ?_⟩
+        show (writeText first_line func_code).take k = _
+        rw [hW, List.take_append, List.take_of_length_le (by omega),
+          List.take_append_of_le_length (by simp at h2 ⊢; omega)]
+      have hqn : NL ∉ q := by
+        intro h; rw [hq] at h
+        have := List.mem_of_mem_take h
+        rcases List.mem_cons.1 this with h | h
+        · exact absurd h (by decide)
+        · exact (char_props (showInt_chars first_line _ h)).2.2 rfl
+      have hpn : NL ∉ p := by
+        rw [hp]; intro h
+        rcases List.mem_append.1 h with h | h
+        · exact firstLine_no_nl h
+        · exact hqn h
+      have hany : q.any (fun c => decide (128 ≤ c)) = false := by
+        rw [hq]; apply any_take
+        rw [List.any_eq_false]; intro c hc
+        rcases List.mem_cons.1 hc with h | h
+        · subst h; decide
+        · have := (char_props (showInt_chars first_line _ h)).2.1; simp; omega
+      have hql : ¬ 4000 < q.length := by rw [hq, List.length_take]; simp; omega
+      have hex : extractFirstLine p = (match pyInt q with
+          | .ok m => .ok ([], m) | .valueError => .valueError | .untracked => .untracked) := by
+        unfold extractFirstLine
+        rw [hp, isPrefixOf_append]
+        simp only [if_true]
+        rw [← hp, splitNL, splitNLAux_single _ _ hpn, hp]
+        simp [joinNL]
+        cases pyInt q <;> rfl
+      rcases pyInt_tracked q hany hql with h | ⟨m, h⟩
+      · left; rw [hex, h]
+      · right; left; exact ⟨m, by rw [hex, h]⟩
+    · -- inside the source
+      right; right
+      have hk' : k < firstLineText.length + ((SP :: showInt first_line).length + (1 + func_code.length)) := by
+        rw [hW] at hk; simp [List.length_append] at hk ⊢; omega
+      refine ⟨k - (firstLineText.length + (SP :: showInt first_line).length + 1), by omega, ?_⟩
+      have hp : p = (firstLineText ++ SP :: showInt first_line) ++ NL ::
+          func_code.take (k - (firstLineText.length + (SP :: showInt first_line).length + 1)) := by
+        show (writeText first_line func_code).take k = _
+        have e : writeText first_line func_code = (firstLineText ++ SP :: showInt first_line) ++ NL :: func_code := by
+          simp [writeText]
+        rw [e, List.take_append, List.take_of_length_le (by simp at h2 ⊢; omega)]
+        congr 1
+        have : k - (firstLineText ++ SP :: showInt first_line).length =
+            (k - (firstLineText.length + (SP :: showInt first_line).length + 1)) + 1 := by
+          simp at h2 ⊢; omega
+        rw [this, List.take_succ_cons]
+      unfold extractFirstLine
+      rw [hp, List.append_assoc, isPrefixOf_append]
+      simp only [if_true]
+      rw [← List.append_assoc, splitNL, splitNLAux_append _ _ _ (head_no_nl first_line)]
+      simp only [List.reverse_nil, List.nil_append, List.headD_cons, List.tail_cons, List.drop_left']
+      rw [(pyInt_showInt first_line (by omega)).1]
+      simp only []
+      rw [← splitNL, joinNL_splitNL]
+
+/-- An INTACT `func_code.py` compares `same` with the live source iff the two sources are equal, character for
+character; it is never `unreadable`. -/
+theorem intact_same_iff (first_line : Int) (stored live : Text) (hl : (showInt first_line).length < 4000) :
+    (compareStored (writeText first_line stored) live = .same ↔ stored = live) ∧
+    (compareStored (writeText first_line stored) live = .changed ↔ stored ≠ live) := by
+  unfold compareStored
+  rw [extract_write_roundtrip first_line stored hl]
+  by_cases h : stored = live <;> simp [h]
+
+/-- A TORN `func_code.py` is never taken for the code of a different version, except in the one way a prefix can:
+if the comparison of `_check_previous_func_code` says `same` for a live source `live`, then `live` is a STRICT
+PREFIX of the source that was being written (cases 4), or empty (case 3), or a strict prefix of the marker (case 1).
+In particular it never says `same` for the source that was being written itself unless that source is empty or a
+fragment of the marker — and a real function source is neither (it contains `def` or `lambda`). The model does not
+abstain on torn files. -/
+theorem torn_same_only_for_prefix (first_line : Int) (func_code live : Text) (hl : (showInt first_line).length < 3999)
+    (k : Nat) (hk : k < (writeText first_line func_code).length)
+    (h : compareStored ((writeText first_line func_code).take k) live = .same) :
+    (∃ j, j < func_code.length ∧ live = func_code.take j) ∨ live = [] ∨
+    (live.length < firstLineText.length ∧ live = firstLineText.take k) := by
+  unfold compareStored at h
+  rcases torn_reads first_line func_code hl k hk with ⟨h1, h2, h3⟩ | h1 | ⟨m, h1⟩ | ⟨j, hj, h1⟩
+  · rw [h3] at h; simp only [] at h
+    split at h
+    · rename_i e; right; right; rw [← e]; exact ⟨h1, h2⟩
+    · cases h
+  · rw [h1] at h; cases h
+  · rw [h1] at h; simp only [] at h
+    split at h
+    · rename_i e; right; left; exact e.symm
+    · cases h
+  · rw [h1] at h; simp only [] at h
+    split at h
+    · rename_i e; left; exact ⟨j, hj, e.symm⟩
+    · cases h
+
+theorem torn_never_untracked (first_line : Int) (func_code live : Text) (hl : (showInt first_line).length < 3999)
+    (k : Nat) (hk : k < (writeText first_line func_code).length) :
+    compareStored ((writeText first_line func_code).take k) live ≠ .untracked := by
+  unfold compareStored
+  rcases torn_reads first_line func_code hl k hk with ⟨_, _, h3⟩ | h1 | ⟨m, h1⟩ | ⟨j, _, h1⟩
+  · rw [h3]; simp only []; split <;> simp
+  · rw [h1]; simp
+  · rw [h1]; simp only []; split <;> simp
+  · rw [h1]; simp only []; split <;> simp
+
+/-- The residue is real (not a weakness of the proof): a writer of `def f():\n  return 12` killed after
+`…return 1` leaves a file that a process whose `f` is `def f():\n  return 1` reads as its own code. (No entry of the
+longer version can be in the directory at that point: it was cleared just before the write.) -/
+theorem torn_prefix_version_witness :
+    let long : Text := [100, 101, 102, 32, 102, 40, 41, 58, 10, 32, 32, 114, 101, 116, 117, 114, 110, 32, 49, 50]
+    let short : Text := long.take 19
+    compareStored ((writeText 7 long).take ((writeText 7 long).length - 1)) short = .same := by
+  simp [compareStored, extractFirstLine, writeText, firstLineText, showInt, showNat, SP, NL, splitNL, splitNLAux, pyInt,
+    strip, stripLeft, isSpace, parseDigits, isDigit, joinNL, MINUS, PLUS]
+
+/-! Non-vacuity: the length hypothesis holds for every realistic line number; the four cases of `torn_reads` all occur. -/
+theorem showNat_length_le (n : Nat) : (showNat n).length ≤ n + 1 := by
+  fun_induction showNat n with
+  | case1 n h => simp
+  | case2 n h ih => simp; omega
+/-- Every line number below 3990 in absolute value (far above any real file) meets the length hypothesis. -/
+theorem showInt_length_lt (n : Int) (h : n.natAbs < 3990) : (showInt n).length < 3999 := by
+  cases n with
+  | ofNat k => have := showNat_length_le k; simp [showInt] at h ⊢; omega
+  | negSucc k => have := showNat_length_le (k + 1); simp [showInt] at h ⊢; omega
+example : extractFirstLine ((writeText 12 [100, 101, 102]).take 5) = .ok ([35, 32, 102, 105, 114], -1) := by
+  simp [extractFirstLine, writeText, firstLineText, showInt, showNat, SP, NL]
+example : extractFirstLine ((writeText 12 [100, 101, 102]).take 14) = .valueError := by
+  simp [extractFirstLine, writeText, firstLineText, showInt, showNat, SP, NL, splitNL, splitNLAux, pyInt,
+    strip, stripLeft, isSpace]
+example : extractFirstLine ((writeText 12 [100, 101, 102]).take 15) = .ok ([], 1) := by
+  simp [extractFirstLine, writeText, firstLineText, showInt, showNat, SP, NL, splitNL, splitNLAux, pyInt,
+    strip, stripLeft, isSpace, parseDigits, isDigit, joinNL, MINUS, PLUS]
+example : extractFirstLine ((writeText 12 [100, 101, 102]).take 19) = .ok ([100, 101], 12) := by
+  simp [extractFirstLine, writeText, firstLineText, showInt, showNat, SP, NL, splitNL, splitNLAux, pyInt,
+    strip, stripLeft, isSpace, parseDigits, isDigit, joinNL, MINUS, PLUS]
+
+end Text
 
 end C12
